@@ -5,6 +5,7 @@ CONSTANTS
   MaxNest = 3
   MaxSteps = 24
   Endings = {"plain", "tryexc", "tryfin", "condret", "acm", "wrap"}
+  Starts = TRUE
   Portals = TRUE
 INVARIANT TreeShape
 INVARIANT AexitHasKids
